@@ -512,9 +512,9 @@ def run(tier, seed):
     t0 = time.time()
     rng = np.random.default_rng(seed)
     T = Tally()
-    n_poly = 2 if tier == "quick" else 40
+    n_poly = 2 if tier == "quick" else 80
     n_cont = 1 if tier == "quick" else 20
-    n_ix = 25 if tier == "quick" else 1500
+    n_ix = 25 if tier == "quick" else 4000
     scen = _fixed_scenarios() + _gen_poly_scenarios(rng, T, n_poly) + _gen_contour_scenarios(rng, T, n_cont, tier) + _gen_ix_scenarios(rng, T, n_ix)
     for case, inp in scen:
         inp = dict(inp, case=case)
